@@ -336,6 +336,22 @@ fn family(base_len: usize, seed: u32) -> Vec<Mutation> {
     out
 }
 
+/// Target-specific field values whose effect comes from a sum or a shift: the CSI geometry
+/// (`min_shift + 3·depth` against the word size: every min_shift 0..=70 and depth 0..=22 with the
+/// other field as generated).
+fn arithmetic_mutants(t: &Target, base: &[u8]) -> Vec<Mutation> {
+    let mut v = Vec::new();
+    if t.driver == "csi" && base.len() >= 16 && &base[..4] == b"CSI\x01" {
+        for ms in 0u32..=70 {
+            v.push(Mutation::Word { pos: 4, width: 4, val: ms });
+        }
+        for d in 0u32..=22 {
+            v.push(Mutation::Word { pos: 8, width: 4, val: d });
+        }
+    }
+    v
+}
+
 fn gunzip_all(b: &[u8]) -> Option<Vec<u8>> {
     let mut d = flate2::read::MultiGzDecoder::new(b);
     let mut v = Vec::new();
@@ -592,7 +608,10 @@ fn check(t: &Target, c: &Case) -> Verdict {
     let fields = length_fields(t, &prep.base);
     // indices into the unfiltered family are what replay files pin (`only`), so they stay valid when
     // the sampling of length-inflating mutants changes
-    let muts: Vec<Mutation> = family(prep.base.len(), c.seed);
+    let mut muts: Vec<Mutation> = family(prep.base.len(), c.seed);
+    // appended (so that the indices of the generic family, which replay files pin, stay valid):
+    // values that matter through arithmetic rather than as raw boundary words
+    muts.extend(arithmetic_mutants(t, &prep.base));
     let dropped: Vec<bool> = muts.iter().enumerate().map(|(i, m)| inflates_length_field(t, &prep.base, &fields, m, crate::engine::mix(c.seed as u64, i as u64))).collect();
     let dropped_inflating = dropped.iter().filter(|d| **d).count() as u64;
     let opts = ReadOpts { sweep: true, vpos: false, max_events: 20_000, exclude_known_hangs: c.only.is_none(), ..ReadOpts::default() };
